@@ -140,6 +140,9 @@ SCENARIOS = [
     ("gauge-concurrent-sets", "g", 2, 1, "r:%s" % A, ["S:0:1", "S:0:2", "S:0:3/e:0:5"]),
     ("gauge-last-slot", "g", 1, 1, "-", ["r:%s/e:0:1" % A, "r:%s/e:0:1" % B, "r:%s/S:0:7" % B]),
     ("gauge-unregister-vs-add", "g", 2, 1, "r:%s" % A, ["e:0:1/e:0:2", "u:%s" % A, "r:%s/e:1:4" % A]),
+    ("adjacent-tuples-last-slot", "c", 1, 2, "-", ["r:6162,63/e:0:1", "r:61,6263/e:0:1", "a:6162,63:2"]),
+    ("colliding-tuples-last-slot", "h", 1, 2, "-", ["r:%s/e:0:1" % X1, "r:%s/e:0:1" % X2, "a:%s:1" % X2]),
+    ("gauge-set-by-tuple", "g", 2, 1, "r:%s" % A, ["A:%s:7" % A, "e:0:1", "A:%s:9/a:%s:2" % (A, A)]),
     ("unbounded-creators", "c", -1, 1, "-", ["r:%s/e:0:1" % A, "r:%s/e:0:1" % B, "r:%s/e:0:1" % A]),
 ]
 
@@ -446,7 +449,8 @@ def describe(case, impl, model):
 
 
 def distribution(cases, impl):
-    d = {"seq": 0, "conc": 0, "rconc": 0, "reg": 0, "rreg": 0, "reg_results": {}, "kind": {"c": 0, "g": 0, "h": 0}, "cap": {}, "ops": {}, "seq_tombstones": 0,
+    d = {"seq": 0, "conc": 0, "rconc": 0, "reg": 0, "rreg": 0, "reg_results": {}, "conc_by_kind": {"c": 0, "g": 0, "h": 0},
+         "conc_noise_cases": 0, "conc_two_label_cases": 0, "kind": {"c": 0, "g": 0, "h": 0}, "cap": {}, "ops": {}, "seq_tombstones": 0,
          "seq_unregister_true": 0, "seq_panics": 0, "seq_collision_cases": 0, "conc_distinct_observations": 0,
          "conc_cases_with_violating_observation": 0, "conc_violation_classes": {},
          "conc_cases_with_several_observations": 0}
@@ -481,6 +485,9 @@ def distribution(cases, impl):
             d["seq_collision_cases"] += ("61ff,62" in c and "61,ff62" in c)
         else:
             obs = conc_obs(o or "")
+            d["conc_by_kind"][t[1]] += 1
+            d["conc_noise_cases"] += t[5] == "1"
+            d["conc_two_label_cases"] += t[3] == "2"
             d["conc_distinct_observations"] += len(obs)
             d["conc_cases_with_several_observations"] += len(obs) >= 2      # real overlap happened
             cls = set()
